@@ -777,3 +777,41 @@ Proof.
   now apply (Forall2_map_eq (sfields rs) ms (fun mm => go_obs_ty (gm_type mm)) (fun f => erase (sgenerics rs) (fty f))).
 Qed.
 End GO2.
+
+(* ---- Go: tuple-variant payloads and struct-variant fields (uppercase_acronyms empty) ---- *)
+Section GO3.
+Variable uc : unicode.
+Variable cfg : go_config.
+Hypothesis Hnil : go_uppercase_acronyms cfg = [].
+Notation c := (c05_go_cfg cfg).
+Notation erase := (c05_erase Go (c05_go_cfg cfg)).
+
+Theorem C05_site_go_payload sh cs sn tk t vsh :
+  dom_C05 t = true -> known_C05 Go c [] t = None ->
+  runs_sat (go_variant_of uc cfg sh cs sn tk (VTuple t vsh))
+           (fun v => exists ty p, gv_content v = GCType ty p /\ go_obs_ty ty = erase (egenerics sh) t).
+Proof.
+  intros Hd Hk st. unfold go_variant_of. cbn [variant_shared].
+  unfold mbind at 1. rewrite (go_acronyms_text_nil uc cfg Hnil).
+  unfold mbind at 1. unfold mbind at 1.
+  destruct (C05_fmt_go cfg [] t Hd Hk st) as [x [s1 [E Hx]]]. rewrite E. unfold ret at 1.
+  unfold mbind at 1. rewrite (go_acronyms_text_nil uc cfg Hnil).
+  unfold mbind at 1. unfold mbind at 1. rewrite (go_acronyms_ty_nil uc cfg Hnil). unfold ret.
+  do 2 eexists. split; [reflexivity|]. cbn [gv_content]. do 2 eexists. split; [reflexivity|].
+  rewrite Hx. apply C05_go_generics_immaterial.
+Qed.
+
+Theorem C05_site_go_variant_fields sh name vo fields :
+  Forall (c05_field_ok Go c (egenerics sh)) fields ->
+  runs_sat (go_struct_decl_of uc cfg (anon_struct sh name vo fields))
+           (fun d => exists docs n gs ms, d = GOStruct docs n gs ms /\
+                     map (fun mm => go_obs_ty (gm_type mm)) ms = map (fun f => erase (egenerics sh) (fty f)) fields).
+Proof.
+  intros Hall st.
+  destruct (C05_site_go_struct uc cfg Hnil (anon_struct sh name vo fields) (Forall_field_ok_anon _ _ _ _ Hall) st)
+    as [d [s' [E [docs [n [ms [-> Hm]]]]]]].
+  do 2 eexists. split; [exact E|]. do 4 eexists. split; [reflexivity|].
+  cbn [sgenerics sfields anon_struct] in Hm. rewrite Hm.
+  apply map_ext_in. intros f Hf. now apply c05_erase_anon.
+Qed.
+End GO3.
